@@ -1287,6 +1287,9 @@ inline void runC10(Ctx &c)
                 std::string diff = compareObs(oL, oF, wp);
                 c.require("C10.reused_equals_fresh_bitwise", diff.empty(), gkey(cur, "history"), "differs in: " + diff + " after step " + std::to_string(step));
                 c.require("C10.outputs_finite", obsFinite(oL, wp), gkey(cur, "finite"));
+                // shapes follow the latest problem even when the caller's output object held another problem's result
+                if (wp)
+                    c.require("C10.result_shapes_follow_latest_problem", gradsShapeOk(oL.pg1, cur) && gradsShapeOk(oL.pg2, cur) && gradsShapeOk(oL.eg, cur), gkey(cur, "shape"));
                 // a second observation of the reused object is identical to the first (queries do not change results)
                 Observables oL2 = observe(*L, u, ts, wp);
                 c.require("C10.queries_are_read_only", compareObs(oL2, oL, wp).empty(), gkey(cur, "history"), "after step " + std::to_string(step));
